@@ -659,9 +659,14 @@ def curve_grid_cases(ctx):
         for w in (2, 3):
             for k in (K_LIST, K_ND):
                 pool.append(curve_array(rng, rows, w, k))
-    for a in range(len(pool)):
-        for b in range(len(pool)):
-            yield dict(op="curve", _t=dict(arrs=[pool[a], pool[b]], image=0, domain=1, ops=[]))
+    def scalars(x):
+        return points_of(x) * (x.get("w") or 1)
+
+    # the most telling pairs first: equally many scalars but another number of points
+    pairs = [(a, b) for a in range(len(pool)) for b in range(len(pool))]
+    pairs.sort(key=lambda ab: 0 if (scalars(pool[ab[0]]) == scalars(pool[ab[1]]) and points_of(pool[ab[0]]) != points_of(pool[ab[1]])) else 1)
+    for a, b in pairs:
+        yield dict(op="curve", _t=dict(arrs=[pool[a], pool[b]], image=0, domain=1, ops=[]))
     for base in (2, 4):
         for a in range(len(pool)):
             arrs = [curve_array(rng, base, None, K_LIST, fixed=False), curve_array(rng, base, None, K_ND, fixed=False), pool[a]]
